@@ -9,6 +9,7 @@
 #include "IO/HDF5File.hpp"
 
 #include "HelperFunctions.hpp"
+#include "VerifHooks.hpp"
 
 namespace vfps {
 class HDF5FileException
@@ -360,12 +361,14 @@ void vfps::HDF5File::append(const ElectricField* ef, const bool fullspectrum)
     if (fullspectrum) {
         _appendData(_csrSpectrum,ef->getCSRSpectrum());
     }
+    VERIF_IP("h5:csr:after_spectrum");
     _appendData(_csrIntensity,ef->getCSRPower());
 }
 
 void vfps::HDF5File::appendPadded(const vfps::ElectricField *ef)
 {
     _appendData(_paddedProfile,ef->getPaddedBunchProfiles());
+    VERIF_IP("h5:padded:after_profile");
     _appendData(_paddedPotential,ef->getPaddedWakePotential());
 }
 
@@ -392,23 +395,32 @@ void vfps::HDF5File::append(const PhaseSpace& ps,
     if ( at == AppendType::All ||
          at == AppendType::PhaseSpace) {
         _appendData(_timeAxisPS,&t);
+        VERIF_IP("h5:ps:after_timeaxis");
         _appendData(_phaseSpace,ps.getData());
     }
+    VERIF_IP("h5:ps:after_phasespace");
 
     if (at != AppendType::PhaseSpace) {
         _appendData(_timeAxis,&t);
+        VERIF_IP("h5:ps:after_time");
         _appendData(_bunchProfile,ps.getProjection(0).origin());
+        VERIF_IP("h5:ps:after_bunchprofile");
         _appendData(_bunchLength,ps.getBunchLength().origin());
+        VERIF_IP("h5:ps:after_bunchlength");
         {
         auto mean_q = ps.getMoment(0,0);
         _appendData(_bunchPosition,mean_q.origin());
         }
+        VERIF_IP("h5:ps:after_bunchposition");
         _appendData(_energyProfile,ps.getProjection(1).origin());
+        VERIF_IP("h5:ps:after_energyprofile");
         _appendData(_energySpread,ps.getEnergySpread().origin());
+        VERIF_IP("h5:ps:after_energyspread");
         {
         auto mean_E = ps.getMoment(1,0);
         _appendData(_energyAverage,mean_E.origin());
         }
+        VERIF_IP("h5:ps:after_energyaverage");
         {
         _appendData(_bunchPopulation,ps.getBunchPopulation().data());
         }
